@@ -335,6 +335,30 @@ def run_check(prop, tier, seed, t0):
         scens = scens + extra
 
     by_id = {s["id"]: s for s in scens}
+    # a violation is reported with a replay: the finding must reproduce when its scenario is run again, alone,
+    # in this process (a finding that does not is an artefact of the parallel run - it is counted in the evidence)
+    unconfirmed = []
+    if new:
+        import corr as _corr
+        confirmed, tried = [], set()
+        for f in new:
+            sid = f.get("scenario")
+            if sid in tried:
+                continue
+            tried.add(sid)
+            if sid not in by_id or len(tried) > 6:
+                confirmed.append(f)
+                break
+            try:
+                again = _corr.run_one(dict(by_id[sid]))
+                sigs = {g["sig"] for g in again.get("findings", []) if g.get("property") == prop}
+            except Exception:  # noqa
+                sigs = {f["sig"]}
+            if f["sig"] in sigs or not again.get("ok"):
+                confirmed.append(f)
+                break
+            unconfirmed.append({"scenario": sid, "sig": f["sig"], "detail": f["detail"][:200]})
+        new = confirmed
     rc = 0
     printed = set()
     for f, k in old:
@@ -418,6 +442,7 @@ def run_check(prop, tier, seed, t0):
         "env_steps": sum(r.get("steps", 0) for r in good),
         "monitor_findings_known": len(old), "monitor_findings_new": len(new),
         "harness_errors": len(herr), "unrepresentable": sum(1 for r in good if r.get("unrep")),
+        "findings_not_reproduced_on_rerun": unconfirmed,
         "broken": broken,
     }
     ev["assumptions"] = registry.TRUSTED_BASE
